@@ -628,6 +628,60 @@ def edited_object_reused(ctx, rng):
                 ctx.count("edited_objects_reused")
 
 
+def caller_redeclares_algorithm_parameters(ctx, rng):
+    """the caller registers, with a stricter rule of its own, a name that the algorithm in use defines as well (a floor for p2c, one fixed apu, an iv of one
+    length): "a caller-registered parameter is checked against its declared type" - both rules hold, the algorithm's does not replace the caller's"""
+    j = J.load()
+    from joserfc.registry import HeaderParameter
+    pt = b"c15 redeclared"
+
+    def floor(n):
+        def check(v):
+            if not isinstance(v, int) or isinstance(v, bool) or v < n:
+                raise ValueError(f"must be an int of at least {n}")
+        return check
+
+    def only(*vals):
+        def check(v):
+            if v not in vals:
+                raise ValueError(f"must be one of {vals}")
+        return check
+    plans = [("PBES2-HS256+A128KW", "A128GCM", "p2c", floor(5000), 1000, 6000), ("PBES2-HS512+A256KW", "A128GCM", "p2s", only("c2FsdC1zYWx0LXNhbHQ"), "YW5vdGhlci1zYWx0", "c2FsdC1zYWx0LXNhbHQ"),
+             ("ECDH-ES", "A128GCM", "apu", only("QWxpY2U"), "TWFsbG9yeQ", "QWxpY2U"), ("ECDH-ES+A128KW", "A128GCM", "apv", only("Qm9i"), "RXZl", "Qm9i"),
+             ("ECDH-1PU", "A256GCM", "skid", only("sender-1"), "sender-2", "sender-1")]
+    for alg, enc, name, rule, bad, good in plans:
+        rk, sk = g.keys_for(alg, enc, "P-256")
+        if name == "skid":
+            J.register_drafts()
+        reg = lambda: j.jwe.JWERegistry(algorithms=[alg, enc], header_registry={name: HeaderParameter(name, rule, False)})
+        for val, want in ((bad, "REJECT"), (good, "ACCEPT")):
+            hdr = {"alg": alg, "enc": enc, name: val}
+            tok = g.make("compact", enc, [(alg, rk, sk)], pt, extra_protected={name: val} if name not in ("apu", "apv", "p2c") else None,
+                         **({"apu": val} if name == "apu" else {}), **({"apv": val} if name == "apv" else {}), **({"p2c": val} if name == "p2c" else {})).token
+            tokf = g.make("flattened", enc, [(alg, rk, sk)], pt, alg_in="protected", params_in="recipient", extra_protected={name: val} if name not in ("apu", "apv", "p2c") else None,
+                          **({"apu": val} if name == "apu" else {}), **({"apv": val} if name == "apv" else {}), **({"p2c": val} if name == "p2c" else {})).token
+            jpub, jpriv = j.key(gen.public_jwk(rk)), j.key(rk)
+            jsp, jss = (j.key(sk), j.key(gen.public_jwk(sk))) if sk else (None, None)
+            ops = [("jwe.encrypt_compact", "produce", lambda: j.jwe.encrypt_compact(dict(hdr), pt, jpub, registry=reg(), sender_key=jsp)),
+                   ("jwe.decrypt_compact", "consume", lambda: j.jwe.decrypt_compact(tok, jpriv, registry=reg(), sender_key=jss)),
+                   ("jwe.decrypt_json[flat]", "consume", lambda: j.jwe.decrypt_json(copy.deepcopy(tokf), jpriv, registry=reg(), sender_key=jss))]
+            for op, direction, f in ops:
+                ctx.ev()
+                o = call(f)
+                ctx.count("cases")
+                ctx.count("redeclared_algorithm_parameters")
+                ctx.count("spec_reject" if want == "REJECT" else "spec_accept")
+                ctx.cell("jwe", direction, op, "redeclared", want)
+                ctx.nontrivial(("redeclared", alg, name, repr(val), op))
+                case = {"redeclared_algorithm_parameter": True, "alg": alg, "name": name, "value": val, "op": op}
+                if want == "REJECT" and o.ok:
+                    ctx.violation(f"bad-header-accepted:caller-rule-for-an-algorithm-parameter:{direction}", f"{op} ({alg}) succeeded with {name}={val!r} although the caller's registry "
+                                  f"declares a rule for {name!r} that this value breaks", case)
+                if want == "ACCEPT" and not o.ok:
+                    ctx.violation(f"good-header-rejected:{o.etype}:caller-rule-for-an-algorithm-parameter", f"{op} ({alg}) failed with {o.exc!r} for {name}={val!r}, which satisfies both "
+                                  f"the caller's and the algorithm's rule", case)
+
+
 def run_shard(ctx):
     J.load()
     rng = ctx.rng
@@ -635,6 +689,8 @@ def run_shard(ctx):
         registry_and_algorithms(ctx, rng)
     if ctx.shard == 2:
         edited_object_reused(ctx, rng)
+    if ctx.shard == 3:
+        caller_redeclares_algorithm_parameters(ctx, rng)
     work = []
     for cfg in configs("jws"):
         for alg in (["HS256", "ES256"] if ctx.tier == "quick" else ["HS256", "ES256", "RS256", "EdDSA", "PS384"]):
@@ -671,6 +727,8 @@ REQUIRE = [("cases", 4000, "headers judged"), ("spec_accept", 400, "headers the 
 
 def replay(ctx, case):
     J.load()
+    if case.get("redeclared_algorithm_parameter"):
+        return caller_redeclares_algorithm_parameters(ctx, ctx.rng)
     if case.get("edited_object_reused"):
         return edited_object_reused(ctx, ctx.rng)
     if case.get("both_registry_and_algorithms"):
